@@ -107,7 +107,7 @@ fn names(class: &str, what: &str, n: usize, g: &mut Gen) -> Vec<String> {
     (0..n)
         .map(|i| match class {
             "prefix" => {
-                // strict prefixes of one another and shared suffixes
+                // each name extends the previous one
                 let base = format!("Dungeons\\Textures\\{what}\\wall");
                 match i % 3 {
                     0 => base,
@@ -115,6 +115,23 @@ fn names(class: &str, what: &str, n: usize, g: &mut Gen) -> Vec<String> {
                     _ => format!("{base}01b_{}", i),
                 }
             }
+            "rprefix" => {
+                // each LATER name is a proper prefix of an earlier one
+                let full = format!("Dungeons\\Textures\\{what}\\Room_01_big");
+                let cut = [0usize, 4, 7, 12][i.min(3)];
+                full[..full.len() - cut].to_string()
+            }
+            "substr" => {
+                // later names are inner substrings / suffixes of the first one, down to one character
+                let full = format!("Dungeons\\Textures\\{what}\\Room_01_big.blp");
+                match i {
+                    0 => full,
+                    1 => "Room_01".to_string(),
+                    2 => "o".to_string(),
+                    _ => full[full.len() - 7..].to_string(),
+                }
+            }
+            "dup" => format!("World\\wmo\\{what}\\same_name.blp"),
             "long" => {
                 let mut s = format!("World\\wmo\\{what}\\{i}_");
                 while s.len() < 240 + 17 * i {
@@ -188,16 +205,18 @@ fn build_root(c: &Value, g: &mut Gen) -> WmoRoot {
             name,
         })
         .collect();
-    let npv = n("npv");
+    // pvpat / vblpat: bit i set <=> inner list i is non-empty
+    let (npv, pvpat) = (n("npv"), gi(c, "pvpat"));
     let portals: Vec<WmoPortal> = (0..n("nport"))
-        .map(|_| WmoPortal { vertices: (0..npv).map(|_| g.v3()).collect(), normal: g.v3() })
+        .map(|i| WmoPortal { vertices: if (pvpat >> i) & 1 == 1 { (0..npv).map(|_| g.v3()).collect() } else { Vec::new() }, normal: g.v3() })
         .collect();
     let portal_references: Vec<WmoPortalReference> = (0..n("npref"))
         .map(|_| WmoPortalReference { portal_index: g.u16(), group_index: g.u16(), side: g.u16() & 1 })
         .collect();
-    let vbl = n("vbl");
-    let visible_block_lists: Vec<Vec<u16>> =
-        (0..n("nvbl")).map(|_| (0..vbl).map(|_| g.u16()).collect()).collect();
+    let (vbl, vblpat) = (n("vbl"), gi(c, "vblpat"));
+    let visible_block_lists: Vec<Vec<u16>> = (0..n("nvbl"))
+        .map(|i| if (vblpat >> i) & 1 == 1 { (0..vbl).map(|_| g.u16()).collect() } else { Vec::new() })
+        .collect();
     let lights: Vec<WmoLight> = (0..n("nlight"))
         .map(|i| {
             let light_type = match i % 4 {
@@ -261,7 +280,8 @@ fn build_root(c: &Value, g: &mut Gen) -> WmoRoot {
         n_doodad_names: doodad_defs.len() as u32,
         n_doodad_defs: doodad_defs.len() as u32,
         n_doodad_sets: doodad_sets.len() as u32,
-        flags: WmoFlags::from_bits_truncate(g.u32() & 0x3DF), // every defined bit except HAS_SKYBOX (derived)
+        // every defined bit; HAS_SKYBOX is set or not at random: the writer derives it from `skybox`
+        flags: WmoFlags::from_bits_truncate(g.u32() & 0x3FF),
         ambient_color: g.color(),
     };
     WmoRoot {
@@ -909,7 +929,18 @@ fn run_conv(case: &str, c: &Value, seed: u64) -> Vec<Value> {
         let vres = if root.version == version_of(to) { "ok" } else { "stale" };
         evs.push(json!({"ev":"Convert","case":case,"from":from,"to":to,"res":res,"version_field":vres}));
         if res == "ok" {
-            sec_events(case, "convert", &tin, &root_tokens(&root), &mut evs);
+            let tconv = root_tokens(&root);
+            sec_events(case, "convert", &tin, &tconv, &mut evs);
+            // the converted object written in the target version and parsed back
+            let (wres, bytes) = write_root(&root, version_of(to));
+            evs.push(json!({"ev":"Write","case":case,"kind":"rootconv","res":wres,"len":bytes.len(),"tok":tok(&bytes)}));
+            if wres == "ok" {
+                let (pres, parsed) = outcome(guarded(|| WmoParser::new().parse_root(&mut Cursor::new(&bytes))));
+                evs.push(json!({"ev":"Parse","case":case,"api":"legacy","res":pres}));
+                if let Some(p) = &parsed {
+                    sec_events(case, "convparse", &tconv, &root_tokens(p), &mut evs);
+                }
+            }
         }
     } else {
         let mut grp = build_group(c, &mut g);
